@@ -191,36 +191,15 @@ func digitTable(p *Prog) (map[rune]rune, *ssa.Function, []string) {
 }
 
 func checkC10(p *Prog, l *Ledger) {
-	// ---- S1 table
-	tab, conv, probs := digitTable(p)
-	for _, pr := range probs {
-		l.Violate("C10/S1-digit-table", "ConvertBanglaDigitsToASCII#table", "", pr)
-	}
+	// ---- S1: the transliteration as a function of one input rune (table lookups, range tests and arithmetic
+	// are all evaluated: the rule is about the mapping, not about how the source expresses it)
+	conv := p.Func("utils.ConvertBanglaDigitsToASCII")
 	if conv == nil {
+		l.Undecide("C10/S1-digit-table", "ConvertBanglaDigitsToASCII", "", "not found")
 		return
 	}
 	l.Funcs[p.FuncKey(conv)] = true
-	for r := rune(0x09E6); r <= 0x09EF; r++ {
-		key := fmt.Sprintf("digit:U+%04X", r)
-		want := '0' + (r - 0x09E6)
-		if !unicode.IsDigit(r) {
-			l.Undecide("C10/S1-digit-table", key, "", "oracle: not a Unicode decimal digit")
-			continue
-		}
-		if got, ok := tab[r]; !ok {
-			l.Violate("C10/S1-digit-table", key, "", fmt.Sprintf("Bengali digit %c is not transliterated", r))
-		} else if got != want {
-			l.Violate("C10/S1-digit-table", key, "", fmt.Sprintf("Bengali digit %c (value %d) is transliterated to %q instead of %q", r, r-0x09E6, got, want))
-		} else {
-			l.Discharge("C10/S1-digit-table", key, "", fmt.Sprintf("%c → %c", r, want), true)
-		}
-	}
-	for r, v := range tab {
-		if r < 0x09E6 || r > 0x09EF {
-			l.Violate("C10/S1-digit-table", fmt.Sprintf("digit:U+%04X", r), "", fmt.Sprintf("a character that is not a Bengali digit (%q) is altered (→ %q)", r, v))
-		}
-	}
-	checkTransliterationLoop(p, l, conv)
+	checkTransliteration(p, l, conv)
 	// ---- S2 classifier
 	isDigit := p.Func("lexer.isDigit")
 	var digits []ivl
@@ -281,108 +260,279 @@ func checkC10(p *Prog, l *Ledger) {
 	}
 }
 
-// checkTransliterationLoop: one WriteRune per input rune: the table image if present, else the rune itself.
-func checkTransliterationLoop(p *Prog, l *Ledger, conv *ssa.Function) {
-	rule := "C10/S1-transliteration-loop"
+// evalRuneExpr evaluates a rendered arithmetic expression over the variable v.
+func evalRuneExpr(expr, v string, val int64) (int64, bool) {
+	expr = strings.TrimSpace(expr)
+	if expr == v {
+		return val, true
+	}
+	if n, err := strconv.ParseInt(expr, 10, 64); err == nil {
+		return n, true
+	}
+	if strings.HasPrefix(expr, "(") && strings.HasSuffix(expr, ")") {
+		inner := expr[1 : len(expr)-1]
+		depth := 0
+		for i := 0; i < len(inner); i++ {
+			switch inner[i] {
+			case '(', '[':
+				depth++
+			case ')', ']':
+				depth--
+			case ' ':
+				if depth == 0 && i+2 < len(inner) && (inner[i+1] == '+' || inner[i+1] == '-') && inner[i+2] == ' ' {
+					a, ok1 := evalRuneExpr(inner[:i], v, val)
+					b, ok2 := evalRuneExpr(inner[i+3:], v, val)
+					if !ok1 || !ok2 {
+						return 0, false
+					}
+					if inner[i+1] == '+' {
+						return a + b, true
+					}
+					return a - b, true
+				}
+			}
+		}
+	}
+	return 0, false
+}
+
+// checkTransliteration: for every code point the function must emit exactly one rune: the ASCII digit of the same
+// value for the ten Bengali digits, the rune itself otherwise.
+func checkTransliteration(p *Prog, l *Ledger, conv *ssa.Function) {
+	rule := "C10/S1-digit-table"
 	m := NewInterpModel(p, "ConvertBanglaDigitsToASCII")
 	m.EmitTests = true
 	m.Explore(conv, []AV{Sym("input")}, nil)
-	// events: next(range input)→T/F ; maplookup ; has→T/F ; call WriteRune(builder, x)
-	mon := Monitor{Init: "out", Also: map[string]bool{"has": true}, Step: func(s string, ev *Event) string {
-		isWrite := func() (string, bool) {
-			if ev.Op == "call" || ev.Op == "io" {
-				return "", false
+	for _, u := range m.Undecided {
+		l.Undecide("infrastructure/explorer", "ConvertBanglaDigitsToASCII", "", u)
+	}
+	const V = "input[range]"
+	// tables: local map literals (mapstore events) and package-level maps (initialiser)
+	tables := map[string]map[int64]int64{}
+	for _, e := range m.G.Events("mapstore") {
+		if len(e.Args) == 3 {
+			k, err1 := strconv.ParseInt(e.Args[1], 10, 64)
+			v, err2 := strconv.ParseInt(e.Args[2], 10, 64)
+			if err1 == nil && err2 == nil {
+				if tables[e.Args[0]] == nil {
+					tables[e.Args[0]] = map[int64]int64{}
+				}
+				tables[e.Args[0]][k] = v
 			}
-			return "", false
 		}
-		_ = isWrite
+	}
+	if pk := p.Pkg("utils"); pk != nil && pk.Func("init") != nil {
+		instrsOf(pk.Func("init"), func(in ssa.Instruction) {
+			if mu, ok := in.(*ssa.MapUpdate); ok {
+				k, ok1 := constInt(mu.Key)
+				v, ok2 := constInt(mu.Value)
+				// the map value stored into a global: name it by the global it ends up in
+				if ok1 && ok2 {
+					for _, r := range *mu.Map.Referrers() {
+						if st, ok := r.(*ssa.Store); ok {
+							if g, ok := st.Addr.(*ssa.Global); ok {
+								name := "global:" + g.Pkg.Pkg.Name() + "." + g.Name()
+								if tables[name] == nil {
+									tables[name] = map[int64]int64{}
+								}
+								tables[name][k] = v
+							}
+						}
+					}
+				}
+			}
+		})
+	}
+	// iteration words: from a next→true edge to the following back-edge
+	type piece struct {
+		set  []ivl
+		out  string
+		word string
+	}
+	var pieces []piece
+	var problems []string
+	var walk func(n int, set []ivl, keysOf string, writes []string, trail []string, depth int)
+	walk = func(n int, set []ivl, keysOf string, writes []string, trail []string, depth int) {
+		if depth > 200 {
+			return
+		}
+		for _, e := range m.G.Out[n] {
+			if e.Ev == nil {
+				walk(e.To, set, keysOf, writes, trail, depth+1)
+				continue
+			}
+			ev := e.Ev
+			tr := append(append([]string{}, trail...), ev.String())
+			switch ev.Op {
+			case "test":
+				ns, ok := constrain(set, ev.Args[0], ev.Out == "true", V)
+				if !ok {
+					problems = append(problems, "the transliteration takes a decision that is not a comparison of the current rune with constants: "+ev.Args[0])
+					continue
+				}
+				walk(e.To, ns, keysOf, writes, tr, depth+1)
+			case "has":
+				// has(M[V])
+				arg := ev.Args[0]
+				if !strings.HasSuffix(arg, "["+V+"]") {
+					problems = append(problems, "table lookup under a key other than the current rune: "+arg)
+					continue
+				}
+				mname := strings.TrimSuffix(arg, "["+V+"]")
+				tab, ok := tables[mname]
+				if !ok {
+					problems = append(problems, "lookup in a table whose contents are not constant: "+mname)
+					continue
+				}
+				var ns []ivl
+				if ev.Out == "true" {
+					for k := range tab {
+						ns = append(ns, intersect(set, k, k)...)
+					}
+				} else {
+					ns = set
+					for k := range tab {
+						ns = append(intersect(ns, -1, k-1), intersect(ns, k+1, maxRune)...)
+					}
+				}
+				walk(e.To, ns, mname, writes, tr, depth+1)
+			case "bufwrite":
+				walk(e.To, set, keysOf, append(append([]string{}, writes...), strings.Join(ev.Args[1:], ",")), tr, depth+1)
+			case "backedge", "next", "return":
+				if len(set) == 0 {
+					continue // infeasible combination of tests
+				}
+				if len(writes) != 1 {
+					problems = append(problems, fmt.Sprintf("for runes in %s an iteration writes %d runes instead of exactly one (%s)", ivlString(set), len(writes), strings.Join(trail, " ; ")))
+					continue
+				}
+				pieces = append(pieces, piece{set: set, out: writes[0], word: strings.Join(trail, " ; ")})
+			default:
+				walk(e.To, set, keysOf, writes, tr, depth+1)
+			}
+		}
+	}
+	started := 0
+	for n, es := range m.G.Out {
+		for _, e := range es {
+			if e.Ev != nil && e.Ev.Op == "next" && e.Ev.Out == "true" {
+				started++
+				_ = n
+				walk(e.To, []ivl{{0, maxRune}}, "", nil, nil, 0)
+			}
+		}
+	}
+	if started == 0 {
+		l.Violate(rule, "ConvertBanglaDigitsToASCII", p.Pos(conv.Pos()), "no loop over the input runes found")
+		return
+	}
+	// evaluate the pieces
+	covered := []ivl{}
+	bad := map[string]bool{}
+	nDigits := map[rune]bool{}
+	for _, pc := range pieces {
+		covered = append(covered, pc.set...)
+		for _, iv := range pc.set {
+			switch {
+			case pc.out == V:
+				// identity: must not contain a Bengali digit
+				if x := intersect([]ivl{iv}, 0x09E6, 0x09EF); len(x) > 0 {
+					bad[fmt.Sprintf("Bengali digit(s) %s are copied unchanged instead of being transliterated", ivlString(x))] = true
+				}
+			case strings.HasSuffix(pc.out, "["+V+"]"):
+				tab := tables[strings.TrimSuffix(pc.out, "["+V+"]")]
+				for r := iv.lo; r <= iv.hi && r-iv.lo < 4096; r++ {
+					img, ok := tab[r]
+					if !ok {
+						bad[fmt.Sprintf("U+%04X is looked up in a table that has no entry for it", r)] = true
+						continue
+					}
+					checkImage(r, img, bad, nDigits)
+				}
+			default:
+				if iv.hi-iv.lo > 4096 {
+					bad[fmt.Sprintf("runes %s are rewritten by the expression %s", ivlString([]ivl{iv}), pc.out)] = true
+					continue
+				}
+				for r := iv.lo; r <= iv.hi; r++ {
+					img, ok := evalRuneExpr(pc.out, V, r)
+					if !ok {
+						bad["output expression not understood: "+pc.out] = true
+						break
+					}
+					checkImage(r, img, bad, nDigits)
+				}
+			}
+		}
+	}
+	// every rune must be handled by some iteration path
+	rest := []ivl{{0, maxRune}}
+	for _, c := range covered {
+		rest = append(intersect(rest, -1, c.lo-1), intersect(rest, c.hi+1, maxRune)...)
+	}
+	if len(rest) > 0 {
+		bad["no output is produced for runes "+ivlString(rest)] = true
+	}
+	for pr := range uniqMap(problems) {
+		bad[pr] = true
+	}
+	for r := rune(0x09E6); r <= 0x09EF; r++ {
+		key := fmt.Sprintf("digit:U+%04X", r)
+		if nDigits[r] && len(bad) == 0 {
+			l.Discharge(rule, key, "", fmt.Sprintf("%c → %c", r, '0'+(r-0x09E6)), true)
+		}
+	}
+	if len(bad) == 0 {
+		l.Discharge(rule, "ConvertBanglaDigitsToASCII#image", p.Pos(conv.Pos()), fmt.Sprintf("as a function of one rune (%d path pieces covering all code points): the ten Bengali digits map to the ASCII digit of the same value, every other rune to itself; exactly one rune is written per input rune", len(pieces)), true)
+	} else {
+		l.Violate(rule, "ConvertBanglaDigitsToASCII#image", p.Pos(conv.Pos()), strings.Join(sortedKeysOf(bad), " || "))
+	}
+	// whole input processed, in order
+	mon := Monitor{Init: "loop", Step: func(s string, ev *Event) string {
 		switch ev.Op {
 		case "next":
-			if s == "in" {
-				return "!an input character is not looked up in the table (dropped or copied unconditionally)"
+			if ev.Out == "false" {
+				return "done"
 			}
-			if ev.Out == "true" {
-				return "in"
-			}
-			return "done"
-		case "has":
-			if s != "in" {
-				return s
-			}
-			return "out"
-		case "test":
-			return "!the transliteration takes a decision (" + ev.Args[0] + ") other than the table lookup: some strings may be left untransliterated or handled differently"
+			return "loop"
 		case "return":
-			if s != "done" && s != "out" {
+			if s != "done" {
 				return "!the function returns before the whole input has been processed"
+			}
+			if !strings.HasPrefix(ev.KV["r0"], "String(") {
+				return "!the result is " + ev.KV["r0"] + ", not the text built"
 			}
 			return ""
 		}
 		return s
 	}}
-	// WriteRune calls are external: rendered through Sym results, not events; inspect them on the SSA instead
-	ws := m.G.Run(mon)
-	for _, w := range ws {
-		l.Violate(rule, "ConvertBanglaDigitsToASCII", posOf(w), w.Msg, witnessDetail(w))
-	}
-	// SSA shape: exactly two WriteRune calls inside the loop, one with the looked-up value (under ok), one with the range rune (under !ok)
-	var writes []*ssa.Call
-	instrsOf(conv, func(in ssa.Instruction) {
-		if c, ok := in.(*ssa.Call); ok {
-			if sc := c.Call.StaticCallee(); sc != nil && strings.HasSuffix(extName(sc), "strings.Builder).WriteRune") {
-				writes = append(writes, c)
-			} else if sc != nil && (strings.Contains(extName(sc), "strings.Builder).Write") || strings.Contains(extName(sc), "Fprint")) {
-				writes = append(writes, c)
-			}
+	runMon(l, "C10/S1-transliteration-loop", "ConvertBanglaDigitsToASCII", m, mon, "every rune of the input is processed in order; the result is the text built")
+}
+
+func checkImage(r, img int64, bad map[string]bool, seen map[rune]bool) {
+	if r >= 0x09E6 && r <= 0x09EF {
+		want := int64('0') + (r - 0x09E6)
+		if !unicode.IsDigit(rune(r)) {
+			bad[fmt.Sprintf("oracle: U+%04X is not a decimal digit", r)] = true
 		}
-	})
-	var problems []string
-	okHit, okMiss := false, false
-	for _, wcall := range writes {
-		arg := wcall.Call.Args[len(wcall.Call.Args)-1]
-		guards := GuardsAt(wcall.Block())
-		var lookupTruth *bool
-		for _, g := range guards {
-			if ex, ok := g.Cond.(*ssa.Extract); ok && ex.Index == 1 {
-				if _, isLk := ex.Tuple.(*ssa.Lookup); isLk {
-					t := g.Truth
-					lookupTruth = &t
-				}
-			}
+		if img != want {
+			bad[fmt.Sprintf("Bengali digit %c (value %d) is transliterated to %q instead of %q", rune(r), r-0x09E6, rune(img), rune(want))] = true
+		} else {
+			seen[rune(r)] = true
 		}
-		d := describe(arg)
-		switch {
-		case lookupTruth == nil:
-			problems = append(problems, "output "+d+" is written unconditionally")
-		case *lookupTruth:
-			if ex, ok := arg.(*ssa.Extract); ok && ex.Index == 0 {
-				if _, isLk := ex.Tuple.(*ssa.Lookup); isLk {
-					okHit = true
-					continue
-				}
-			}
-			problems = append(problems, "for a table hit the output is "+d+", not the table image")
-		default:
-			if ex, ok := arg.(*ssa.Extract); ok {
-				if _, isNext := ex.Tuple.(*ssa.Next); isNext && ex.Index == 2 {
-					okMiss = true
-					continue
-				}
-			}
-			problems = append(problems, "for a character outside the table the output is "+d+", not the character itself")
-		}
+		return
 	}
-	if !okHit || !okMiss {
-		problems = append(problems, fmt.Sprintf("expected one write of the table image and one of the unchanged rune (found hit=%v miss=%v, %d writes)", okHit, okMiss, len(writes)))
+	if img != r {
+		bad[fmt.Sprintf("a character that is not a Bengali digit (%q, U+%04X) is altered (→ %q)", rune(r), r, rune(img))] = true
 	}
-	if len(writes) != 2 {
-		problems = append(problems, fmt.Sprintf("%d output sites instead of 2", len(writes)))
+}
+
+func uniqMap(xs []string) map[string]bool {
+	out := map[string]bool{}
+	for _, x := range xs {
+		out[x] = true
 	}
-	if len(problems) == 0 && len(ws) == 0 {
-		l.Discharge(rule, "ConvertBanglaDigitsToASCII", p.Pos(conv.Pos()), "for every rune of the input, in order: exactly one WriteRune — the table image on a hit, the rune itself otherwise; no other decision", true)
-	} else if len(problems) > 0 {
-		l.Violate(rule, "ConvertBanglaDigitsToASCII", p.Pos(conv.Pos()), strings.Join(uniqStrings(sortStrings(problems)), " || "))
-	}
+	return out
 }
 
 // checkNumberScanner: literal shape and value on the scanner graph.
